@@ -18,6 +18,7 @@ struct cs {
   int srv_calls, srv_put_bytes, srv_put_ok;
   int resp_total, resp_2xx, resp_err, nacks, notifications;
   int last_code;
+  size_t max_len; /* longest response body seen */
   int watch_tok, watch_code; /* response code seen for the request with this one-byte token (0 = none yet) */
   size_t last_len;
   uint64_t last_hash;
@@ -135,6 +136,8 @@ cs_resp(coap_session_t *s, const coap_pdu_t *sent, const coap_pdu_t *rcv, const 
   CS->body_ok = 0;
   if (coap_get_data_large(rcv, &size, &d, &off, &total)) {
     CS->last_len = size;
+    if (size > CS->max_len)
+      CS->max_len = size;
     CS->last_hash = vx_fnv(d, size, VX_FNV0);
     int ok = 1;
     for (size_t i = 0; i < size; i++)
